@@ -14,6 +14,10 @@ var V2RunawayLimit = 20 * time.Second
 
 var runawaySeq atomic.Int64
 
+// V2RanAway is set when a weighted-graph Check neither answered nor honoured its cancelled context: its goroutines
+// keep multiplying, so the driver stops generating requests, has TLC judge what was recorded and finishes.
+var V2RanAway atomic.Bool
+
 // recordRunaway writes the complete input of a weighted-graph Check that did not answer (engine, request, model and
 // tuples as last set up) next to the evidence, so that the request can be replayed.
 func recordRunaway(ev *CheckEv) {
@@ -25,6 +29,8 @@ func recordRunaway(ev *CheckEv) {
 	_ = os.WriteFile(p, []byte(a+"\n"), 0o644)
 	fmt.Fprintf(os.Stderr, "NOTE: weighted-graph Check gave no answer within %s (eng=%s %s#%s@%s); input in %s\n",
 		V2RunawayLimit, ev.Eng, ev.O.String(), ev.R, ev.U.String(), p)
-	// let the abandoned resolver goroutines observe the cancellation and unwind before the next request
-	time.Sleep(2 * time.Second)
+	if !V2RanAway.Load() {
+		// let the abandoned resolver goroutines observe the cancellation and unwind before the next request
+		time.Sleep(2 * time.Second)
+	}
 }
